@@ -40,8 +40,9 @@ ASSUMPTIONS = [
     'form is not generated)',
     'shell command lines: the expected argv is the word list by construction over an alphabet where POSIX word '
     'splitting is unambiguous (cross-checked with shlex.split); a symbol reference inside a shell command line may be '
-    'substituted or not (manual silent): both accepted; arguments appended to a shell program through @ SYMBOL are '
-    'simple words only (whether they are quoted for the shell is not specified)',
+    'substituted or not (manual silent): both accepted; arguments appended to a shell program through @ SYMBOL become '
+    'part of the command line ("passed as a single string to the operating system\'s shell"), separated by blanks: the '
+    'shell divides them into words (expected words from a table in the generator)',
     'how often the program of a text source / of a run transformer is executed is only specified for `-from` '
     '("once, and only once"): elsewhere at least once when the result is used; a transformation of a program whose '
     'output is not used (run instruction, exit-code -from) may or may not be evaluated',
